@@ -52,3 +52,25 @@ Proof.
   exists 0, 1, 7, [1%N], (fun p => if p =? 0 then Some {| f_ino := 3; f_data := [9%N] |} else None).
   split; [discriminate|]. cbn. split; discriminate.
 Qed.
+
+(* frame: unless the result is nil NO path other than the temp name changes -- in particular not the file a
+   destination symlink points to, nor the link itself *)
+Theorem extract_tmp_frame name tmp create_ok new_ino asm_data asm_res rename_ok fs p :
+  p <> tmp ->
+  let '(fs', r) := write_with_tmp name tmp create_ok new_ino asm_data asm_res rename_ok fs in
+  r <> RNil -> fs' p = fs p.
+Proof.
+  intros Hp. unfold write_with_tmp. destruct create_ok; cbn; [|reflexivity].
+  destruct asm_res; [destruct rename_ok| |]; intros Hr; try congruence;
+    repeat (rewrite fs_set_other by exact Hp); reflexivity.
+Qed.
+
+(* writing through the link: an interrupted extract leaves the linked file modified *)
+Theorem extract_through_link_refuted :
+  exists target new_ino asm_data fs,
+    let '(fs', r) := write_through_link target new_ino asm_data RInterrupted fs in
+    r <> RNil /\ fs' target <> fs target.
+Proof.
+  exists 2, 7, [1%N], (fun p => if p =? 2 then Some {| f_ino := 3; f_data := [9%N] |} else None).
+  cbn. split; discriminate.
+Qed.
